@@ -231,6 +231,13 @@ def check_paths_and_tools(run: lib.Run, audit: dict, scale: int = 1):
                 continue
             # C: validator and CLI
             verdict = c06.schema_ok(doc)
+            lib_verdict = c06.validator_ok(doc)
+            run.count("validator:" + ("accepts" if lib_verdict else "rejects"))
+            if lib_verdict != verdict:
+                run.spec_failures.append({"part": "validator", "document": doc, "bundled_schema_accepts": verdict, "validate_policy_accepts": lib_verdict,
+                                          "documents_validated_before_in_this_process": run.hist.get("validator:accepts", 0) + run.hist.get("validator:rejects", 0) - 1,
+                                          "spec": "validate_policy does not accept the document exactly when it conforms to the bundled schema"})
+                continue
             is_set = "policies" in doc and isinstance(doc.get("policies"), list)
             child_verdicts = [c06.schema_ok(c) for c in doc["policies"]] if is_set else None
             for ext, txt in ((".json", json.dumps(doc)), (".yaml", yaml.safe_dump(doc))):
